@@ -50,8 +50,37 @@ def _alarm(signum, frame):
     raise _Timeout()
 
 
+def fit_text(isa, n):
+    return ("nop\n" if isa == "riscv" else "NOP\n") * n
+
+
+def check_fit(case, stats):
+    """The size error is for programs that do NOT fit: exactly as many instructions as the instruction memory holds
+    (4096) load, one more is rejected with the dedicated error."""
+    from architecture_simulator.isa.parser_exceptions import MemorySizeException
+    from architecture_simulator.simulation.riscv_simulation import RiscvSimulation
+    from architecture_simulator.simulation.toy_simulation import ToySimulation
+    from architecture_simulator.uarch.memory.memory import MemoryAddressError
+    sim = RiscvSimulation() if case["isa"] == "riscv" else ToySimulation()
+    n = case["n"]
+    try:
+        sim.load_program(fit_text(case["isa"], n))
+        outcome = "ok"
+    except (MemorySizeException, MemoryAddressError) as ex:
+        outcome = type(ex).__name__
+    except Exception as ex:
+        raise Violation("load-raises-other:" + type(ex).__name__, case, f"{n} instructions: {type(ex).__name__}: {ex}")
+    if n <= 4096 and outcome != "ok":
+        raise Violation("size-error-for-fitting-program", case, f"{n} instructions fit the instruction memory (4096) but loading raised {outcome}")
+    if n > 4096 and outcome == "ok":
+        raise Violation("oversize-program-accepted", case, f"{n} instructions were accepted")
+    stats.count(case, True, {"fit:" + case["isa"], "outcome:" + outcome}, sample_tag="fit")
+
+
 def check(case, stats):
     k = case["kind"]
+    if k == "fit":
+        return check_fit(case, stats)
     if k == "text":
         return check_text(case, stats)
     if k == "run":
@@ -325,6 +354,24 @@ def crossing_case(draw):
                 dcache=draw(st.one_of(cachecfg.small_cache_config(), cachecfg.cache_config())), icache=None)
 
 
+@st.composite
+def ecall_fault_case(draw):
+    """An ecall that must fail: print-string (a7 = 4) with a0 outside the data memory, or a service code that does not
+    exist; surrounded by ordinary instructions, in both modes, with and without a data cache."""
+    pre = draw(st.lists(rvprog.instruction([o for o in rv32.ALL_OPS if o not in rv32.BRANCH_OPS + rv32.LOAD_OPS + rv32.STORE_OPS + ["jal", "jalr", "ecall"]]), max_size=3))
+    pre = [i for i in pre if rv32.dest(i) not in (10, 17)]
+    if draw(st.booleans()):
+        bad = draw(st.sampled_from([0, 1, 4, 100, B - 1, B - 4, 0x2000]))
+        setup = [["addi", 17, 0, 4]] + ([["addi", 10, 0, bad]] if bad < 2048 else [["lui", 10, bad >> 12], ["addi", 10, 10, bad & 0xFFF]] if (bad & 0xFFF) < 2048
+                                        else [["lui", 10, (bad >> 12) + 1], ["addi", 10, 10, (bad & 0xFFF) - 4096]])
+    else:
+        code = draw(st.sampled_from([0, 3, 5, 6, 9, 12, 33, 36, 92, 94, 2047]))
+        setup = [["addi", 17, 0, code]]
+    post = draw(st.lists(rvprog.instruction(["addi", "add", "lui"]), max_size=2))
+    return {"kind": "run", "mode": draw(st.sampled_from(["single", "five"])), "max": 60, "prog": pre + setup + [["ecall"]] + post, "regs": {}, "mem": {},
+            "dcache": draw(st.one_of(st.none(), cachecfg.small_cache_config())), "icache": None}
+
+
 def corpus():
     t = lambda isa, s: {"kind": "text", "isa": isa, "text": s, "src": "corpus"}  # noqa: E731
     B = rvprog.B
@@ -353,12 +400,15 @@ def shards(tier, seed):
         items.append({"what": "raw", "isa": isa, "n": 400 if q else 6000, "seed": seed * 1000 + 20 + i})
     items.append({"what": "run", "n": 300 if q else 5000, "seed": seed * 1000 + 30})
     items.append({"what": "crossing", "n": 200 if q else 4000, "seed": seed * 1000 + 32})
+    items.append({"what": "ecallfault", "n": 150 if q else 3000, "seed": seed * 1000 + 33})
+    items.append({"what": "fit", "cases": [["riscv", 4096], ["toy", 4096], ["toy", 4097]] + ([] if q else [["riscv", 4097], ["riscv", 4095]])})
     items.append({"what": "toyrun", "n": 100 if q else 2000, "seed": seed * 1000 + 31})
     if not q:
         more = []
         for it in items:
             for r in range(3):
-                more.append(dict(it, seed=it["seed"] + 100 * (r + 1)))
+                if "seed" in it:
+                    more.append(dict(it, seed=it["seed"] + 100 * (r + 1)))
         items += more
         items.append({"what": "atheris", "runs": 400000, "seed": seed})
     return items
@@ -377,6 +427,10 @@ def run_shard(item, stats):
         core.hyp_search(raw_text(item["isa"]), check, stats, item["n"], item["seed"], km)
     elif w == "run":
         core.hyp_search(run_case(), check, stats, item["n"], item["seed"], km)
+    elif w == "ecallfault":
+        core.hyp_search(ecall_fault_case(), check, stats, item["n"], item["seed"], km)
+    elif w == "fit":
+        core.run_cases([{"kind": "fit", "isa": i, "n": n} for i, n in item["cases"]], check, stats, km)
     elif w == "crossing":
         core.hyp_search(crossing_case(), check, stats, item["n"], item["seed"], km)
     elif w == "toyrun":
